@@ -121,4 +121,69 @@ theorem runLoop_iter_mem (v : Variant) (d : Bool) (w : Waiter) (h : List Iter) :
           exact List.mem_cons_of_mem _ (ih _ ev hev)
       · simp [hf, ha] at hev
 
+/-! ### the events of the loop, pass by pass -/
+
+theorem runLoop_events_ok (v : Variant) (d : Bool) (w : Waiter) (it : Iter) (rest : List Iter) (hf : it.finished = false)
+    (ha : it.ammoOk = true) (hk : (waitV v w it.env).ok = true) :
+    (runLoop v d w (it :: rest)).1 =
+      (if fires d (isSlowDown (waitV v w it.env).w it.ctxDoneSlow) then Ev.shoot it else Ev.discard it discardedShootSample) ::
+        (runLoop v d (waitV v w it.env).w rest).1 := by
+  rw [runLoop]; simp [hf, ha, hk]
+
+theorem runLoop_events_skip (v : Variant) (d : Bool) (w : Waiter) (it : Iter) (rest : List Iter) (hf : it.finished = false)
+    (ha : it.ammoOk = true) (hk : (waitV v w it.env).ok = false) :
+    (runLoop v d w (it :: rest)).1 = (runLoop v d (waitV v w it.env).w rest).1 := by
+  rw [runLoop]; simp [hf, ha, hk]
+
+theorem runLoop_events_stop (v : Variant) (d : Bool) (w : Waiter) (it : Iter) (rest : List Iter)
+    (h : it.finished = true ∨ it.ammoOk = false) : (runLoop v d w (it :: rest)).1 = [] := by
+  rw [runLoop]
+  rcases h with h | h
+  · simp [h]
+  · by_cases hf : it.finished = true <;> simp [h, hf]
+
+/-! ### cancellation is permanent -/
+
+/-- A done context stays done: once `IsSlowDown` has seen the run context done in some pass, `IsFinished` sees it done at the
+head of every later pass (`it.finished` is the answer of `IsFinished`, which is true on a done context). -/
+def CtxMono (h : List Iter) : Prop := h.Pairwise (fun a b => a.ctxDoneSlow = true → b.finished = true)
+
+instance (h : List Iter) : Decidable (CtxMono h) := by unfold CtxMono; exact inferInstance
+
+theorem getLast?_cons_of_getLast? {α : Type} (a : α) (l : List α) (e : α) (h : l.getLast? = some e) :
+    (a :: l).getLast? = some e := by
+  cases l with
+  | nil => simp at h
+  | cons b t => simpa [List.getLast?_cons_cons] using h
+
+/-- an action taken in a pass in which `IsSlowDown` saw the context done is the LAST action of that instance: the loop ends at
+the next `IsFinished` -/
+theorem runLoop_ctxDoneSlow_last (v : Variant) (d : Bool) (w : Waiter) (h : List Iter) (hm : CtxMono h) :
+    ∀ ev ∈ (runLoop v d w h).1, ev.iter.ctxDoneSlow = true → (runLoop v d w h).1.getLast? = some ev := by
+  induction h generalizing w with
+  | nil => simp [runLoop]
+  | cons jt rest ih =>
+    intro ev hev hctx
+    have hm' : CtxMono rest := (List.pairwise_cons.mp hm).2
+    by_cases hf : jt.finished = true
+    · rw [runLoop_events_stop v d w jt rest (Or.inl hf)] at hev; simp at hev
+    · by_cases ha : jt.ammoOk = true
+      · by_cases hk : (waitV v w jt.env).ok = true
+        · rw [runLoop_events_ok v d w jt rest (by simpa using hf) ha hk] at hev ⊢
+          simp only [List.mem_cons] at hev
+          rcases hev with rfl | hev
+          · -- this pass: every later pass has `finished = true`, so there are no further actions
+            have hj : jt.ctxDoneSlow = true := by
+              split at hctx <;> simpa [Ev.iter] using hctx
+            have hnil : (runLoop v d (waitV v w jt.env).w rest).1 = [] := by
+              cases rest with
+              | nil => simp [runLoop]
+              | cons r rs =>
+                exact runLoop_events_stop v d _ r rs (Or.inl ((List.pairwise_cons.mp hm).1 r (by simp) hj))
+            rw [hnil]; simp
+          · exact getLast?_cons_of_getLast? _ _ _ (ih _ hm' ev hev hctx)
+        · rw [runLoop_events_skip v d w jt rest (by simpa using hf) ha (by simpa using hk)] at hev ⊢
+          exact ih _ hm' ev hev hctx
+      · rw [runLoop_events_stop v d w jt rest (Or.inr (by simpa using ha))] at hev; simp at hev
+
 end Pandora.Proofs.C04
